@@ -89,11 +89,12 @@ SessDies(i) == /\ Quiet /\ dies < MaxDie /\ i \in Live /\ dies' = dies + 1
                /\ sess' = Kill({i})
                /\ UNCHANGED <<nextId,s2c,c2s,lstate,lepoch,ack,hrCalls,oldUp,newUp,mstate,mepoch,cur,reserve,closed,wpc,wsess,tq,injs,kf,idAtClose>>
 \* a hot-restart event of an epoch the listener is not announcing reaches the client on session i (stale or foreign)
-InjectHR(i, e) == /\ Quiet /\ injs < MaxInj /\ i \in Live /\ e # lepoch /\ injs' = injs + 1
+\* (an epoch that the listener may still announce later is excluded: that would be the same epoch twice, see D4)
+InjectHR(i, e) == /\ Quiet /\ injs < MaxInj /\ i \in Live /\ e # lepoch /\ (e < lepoch \/ hrCalls = MaxHR) /\ injs' = injs + 1
                   /\ s2c' = [s2c EXCEPT ![i] = Append(@, e)]
                   /\ UNCHANGED <<sess,nextId,c2s,lstate,lepoch,ack,hrCalls,oldUp,newUp,mstate,mepoch,cur,reserve,closed,wpc,wsess,tq,dies,kf,idAtClose>>
 \* an acknowledgement of an epoch the listener is not announcing reaches the old server on session i
-InjectAck(i, e) == /\ Quiet /\ injs < MaxInj /\ i \in Live /\ sess[i].srv = "old" /\ e # lepoch /\ injs' = injs + 1
+InjectAck(i, e) == /\ Quiet /\ injs < MaxInj /\ i \in Live /\ sess[i].srv = "old" /\ e # lepoch /\ (e < lepoch \/ hrCalls = MaxHR) /\ injs' = injs + 1
                    /\ c2s' = [c2s EXCEPT ![i] = Append(@, e)]
                    /\ UNCHANGED <<sess,nextId,s2c,lstate,lepoch,ack,hrCalls,oldUp,newUp,mstate,mepoch,cur,reserve,closed,wpc,wsess,tq,dies,kf,idAtClose>>
 
@@ -143,6 +144,7 @@ MOnHR(i) == /\ Quiet /\ i < nextId /\ s2c[i] # <<>>
                /\ s2c' = [s2c EXCEPT ![i] = Tail(@)]
                /\ kf' = kf \cup (IF ~ignore /\ closed # "no" THEN {"hr-after-close"} ELSE {})
                          \cup (IF ~ignore /\ ~sess[i].alive THEN {"hr-on-closed-session"} ELSE {})
+                         \cup (IF starting /\ e = mepoch /\ mepoch # 0 THEN {"same-epoch-round"} ELSE {})
                /\ IF ignore THEN UNCHANGED <<sess,nextId,mstate,mepoch,cur,reserve,tq>>
                   ELSE /\ mstate' = "hot" /\ mepoch' = e
                        /\ tq' = IF starting THEN Append(tq, "M") ELSE tq
